@@ -353,7 +353,7 @@ where
                 let normalization = options.normalization();
                 let enum_name = normalization.enum_name(&query.schema.get_enum(enum_id).name);
                 let enum_name = Ident::new(enum_name.as_ref(), Span::call_site());
-                let variant = shared::keyword_replace(normalization.enum_variant(en.as_ref()));
+                let variant = shared::enum_variant_ident(*normalization, en.as_ref());
                 let variant = Ident::new(variant.as_ref(), Span::call_site());
                 quote!(#enum_name::#variant)
             }
